@@ -365,6 +365,13 @@ fn blanks(input: Span) -> IResult<Span, ()> {
     V("seed-C03-m3-double-minimisation", [("@patch", "seeded/C03-m3/patch.diff")], {"C03": "MINONCE:dfa::DFAInternPool::intern"}),
     V("revert-6a3f768-commands-keep-level-0", [("@revert", "6a3f768")], {"C02": "LEVEL:check::do_propagate_fallback_levels:Command"}),
     V("seed-C13-r2-m2-trace-push-before-early-return", [("@patch", "seeded/C13-r2-m2/patch.diff")], {"C13": "PAIRING:check::do_check_subword_spaces:nonterm_expn_trace"}),
+    V("seed-C01-r2-m1-subword-loop-var-clobbers-caller", [("@patch", "seeded/C01-r2-m1/patch.diff")], {"C01": "SK-SCOPE"}),
+    V("seed-C01-r2-m3-break-in-literal-scan", [("@patch", "seeded/C01-r2-m3/patch.diff")], {"C01": "SK-WALK:W5:scan-ends-only-by-transition"}),
+    V("seed-C01-r2-m2-levels-before-expansion", [("@patch", "seeded/C01-r2-m2/patch.diff")], {"C01": "MPT:check::ValidGrammar::from_grammar"}),
+    V("seed-C04-r2-m1-bash-literals-unique", [("@patch", "seeded/C04-r2-m1/patch.diff")], {"C04": "LITLIST:bash::write_literals"}),
+    V("seed-C06-r2-m1-subword-level-dropped", [("@patch", "seeded/C06-r2-m1/patch.diff")], {"C06": "FIELDCOVER:dfa::Inp::get_fallback_level", "C02": "FIELDCOVER:dfa::Inp::get_fallback_level"}),
+    V("seed-C06-r2-m2-subword-compadd-not-collected", [("@patch", "seeded/C06-r2-m2/patch.diff")], {"C06": "FIELDCOVER:dfa::DFA::get_commands:match#2:Compadd.cmd", "C04": "FIELDCOVER:dfa::DFA::get_commands"}),
+    V("seed-C06-r2-m3-mixed-column-units", [("@patch", "seeded/C06-r2-m3/patch.diff")], {"C06": "SPANLINE:parse::HumanSpan:one-column-unit", "C13": "UNITS:parse::HumanSpan:one-column-unit"}),
     # ---------------- C10
     V("c10-std-hashset-in-dfa", [("src/dfa.rs", "use hashbrown::{HashMap, HashSet};", "use hashbrown::HashMap;\nuse std::collections::HashSet;")], {"C10": "HASHORD:dfa::dfa_from_regex"}),
     V("c10-env-var", [("src/lib.rs", '    let version = env!("COMPLGEN_VERSION");', '    let version = std::env::var("COMPLGEN_VERSION").unwrap_or_default();')], {"C10": "AMBIENT:signature"}),
